@@ -32,7 +32,7 @@ theorem takeWhile_digit_nil {rest : List Nat} (h : NoDigitHead rest) :
   | nil => rfl
   | cons c r =>
     simp only [NoDigitHead] at h
-    simp [List.takeWhile_cons, h]
+    simp [h]
 
 theorem dropWhile_digit_self {rest : List Nat} (h : NoDigitHead rest) :
     rest.dropWhile isDigit = rest := by
@@ -40,7 +40,7 @@ theorem dropWhile_digit_self {rest : List Nat} (h : NoDigitHead rest) :
   | nil => rfl
   | cons c r =>
     simp only [NoDigitHead] at h
-    simp [List.dropWhile_cons, h]
+    simp [h]
 
 theorem takeWhile_append_rest (r : List Nat) {rest : List Nat} (h : NoDigitHead rest) :
     (r ++ rest).takeWhile isDigit = r.takeWhile isDigit := by
@@ -64,7 +64,7 @@ theorem takeWhile_all {ds : List Nat} (h : ∀ d ∈ ds, isDigit d = true) :
   | cons c r ih =>
     have hc : isDigit c = true := h c (by simp)
     have hr : ∀ d ∈ r, isDigit d = true := fun d hd => h d (by simp [hd])
-    simp [List.takeWhile_cons, hc, ih hr]
+    simp [hc, ih hr]
 
 theorem dropWhile_all {ds : List Nat} (h : ∀ d ∈ ds, isDigit d = true) :
     ds.dropWhile isDigit = [] := by
@@ -73,7 +73,7 @@ theorem dropWhile_all {ds : List Nat} (h : ∀ d ∈ ds, isDigit d = true) :
   | cons c r ih =>
     have hc : isDigit c = true := h c (by simp)
     have hr : ∀ d ∈ r, isDigit d = true := fun d hd => h d (by simp [hd])
-    simp [List.dropWhile_cons, hc, ih hr]
+    simp [hc, ih hr]
 
 theorem mem_takeWhile_digit (l : List Nat) : ∀ x ∈ l.takeWhile isDigit, isDigit x = true := by
   induction l with
@@ -277,7 +277,7 @@ theorem scanIntPart_ext {r ip r1 rest : List Nat} (h : scanIntPart r = some (ip,
 theorem scanFrac_ext (r : List Nat) {rest : List Nat} (hr : Delim rest) :
     scanFrac (r ++ rest) = ((scanFrac r).1, (scanFrac r).2 ++ rest) := by
   cases r with
-  | nil => simp [scanFrac_delim hr, scanFrac]
+  | nil => rw [List.nil_append, scanFrac_delim hr]; rfl
   | cons c r =>
     simp only [List.cons_append, scanFrac, takeWhile_append_rest _ hr.noDigitHead,
       dropWhile_append_rest _ hr.noDigitHead]
@@ -286,7 +286,7 @@ theorem scanFrac_ext (r : List Nat) {rest : List Nat} (hr : Delim rest) :
 theorem expSign_ext (r : List Nat) {rest : List Nat} (hr : Delim rest) :
     expSign (r ++ rest) = expSign r := by
   cases r with
-  | nil => simp [expSign_delim hr, expSign]
+  | nil => rw [List.nil_append, expSign_delim hr]; rfl
   | cons c r => simp [expSign]
 
 theorem expSign_length_le (r : List Nat) : (expSign r).length ≤ r.length := by
@@ -299,7 +299,7 @@ theorem expSign_length_le (r : List Nat) : (expSign r).length ≤ r.length := by
 theorem scanExp_ext (r : List Nat) {rest : List Nat} (hr : Delim rest) :
     scanExp (r ++ rest) = ((scanExp r).1, (scanExp r).2 ++ rest) := by
   cases r with
-  | nil => simp [scanExp_delim hr, scanExp]
+  | nil => rw [List.nil_append, scanExp_delim hr]; rfl
   | cons e r =>
     simp only [List.cons_append, scanExp, expSign_ext r hr,
       List.drop_append_of_le_length (expSign_length_le r),
@@ -393,7 +393,7 @@ theorem scanFrac_chars (r : List Nat) : ∀ c ∈ (scanFrac r).1, NumChar c := b
     · rename_i hd
       simp only [List.mem_cons] at hc
       rcases hc with rfl | hc
-      · simp [NumChar, hd.1]
+      · simp [NumChar]
       · exact Or.inl (mem_takeWhile_digit _ c hc)
     · simp at hc
 
@@ -459,9 +459,5 @@ theorem isFloatTok_chars (tok : List Nat) (h : isFloatTok tok = true) :
     split at hs
     · exact scanNumBody_chars hs
     · exact scanNumBody_chars hs
-
-#print axioms EJ.scanNum_encInt
-#print axioms EJ.scanNum_append
-#print axioms EJ.isFloatTok_chars
 
 end EJ
